@@ -47,7 +47,10 @@ Kinds == {[k |-> "leaf", vs |-> {}, kids |-> {}],
           [k |-> "branch", vs |-> {"a", "b"}, kids |-> {}],
           [k |-> "nested", vs |-> {"a"}, kids |-> {}],
           [k |-> "glob", vs |-> {"a"}, kids |-> {"k1", "k2"}],
-          [k |-> "output", vs |-> {"a"}, kids |-> {}]}
+          [k |-> "output", vs |-> {"a"}, kids |-> {}],
+          \* a glob inside a glob: '*': {pool: {'*': {a}}} for children k1 and,
+          \* in each child's pool, members m1, m2
+          [k |-> "glob2", vs |-> {"a"}, kids |-> {"k1"}]}
 
 \* variables of a port as the process sees them below the port name
 PortVars(kd) ==
@@ -56,6 +59,7 @@ PortVars(kd) ==
     [] kd.k = "output" -> {<<v>> : v \in kd.vs}
     [] kd.k = "nested" -> {<<"n", v>> : v \in kd.vs}
     [] kd.k = "glob"   -> {<<c, v>> : c \in kd.kids, v \in kd.vs}
+    [] kd.k = "glob2"  -> {<<c, "pool", m, v>> : c \in kd.kids, m \in {"m1", "m2"}, v \in kd.vs}
 \* direct children of the port (what a dictionary topology may rename)
 Children(kd) ==
   CASE kd.k = "nested" -> {"n"}
@@ -68,7 +72,7 @@ SubMaps(kd) == UNION {[S -> {<<"y">>, <<UP, "x">>, <<"x", "a">>}] : S \in SUBSET
 GlobSubMaps(kd) == UNION {[S -> {<<"m">>, <<"n", "a">>}] : S \in SUBSET kd.vs}
 Topos(kd) ==
   {[t |-> "path", hasp |-> FALSE, p |-> p, sub |-> <<>>] : p \in RelPaths}
-  \cup (IF kd.k # "glob" THEN {}
+  \cup (IF kd.k # "glob" THEN {}    \* (glob2 only with plain paths)
         ELSE {[t |-> "gdict", hasp |-> TRUE, p |-> p, sub |-> s] :
                 p \in {<<"x">>, <<UP, "y">>, <<"x", "w">>}, s \in GlobSubMaps(kd)})
   \* (the constructor does not accept a dictionary topology for an output
@@ -101,7 +105,7 @@ VarsOf(loc, ports) ==
            out |-> ports[i].kd.k = "output"] : v \in PortVars(ports[i].kd)} : i \in DOMAIN ports}
 
 GlobNodes(loc, ports) ==
-  {Norm(loc \o ports[i].tp.p) : i \in {j \in DOMAIN ports : ports[j].kd.k = "glob"}}
+  {Norm(loc \o ports[i].tp.p) : i \in {j \in DOMAIN ports : ports[j].kd.k \in {"glob", "glob2"}}}
 
 \* well-formed: nothing escapes the root, no variable node lies on the way to
 \* another (a node is a variable or a branch, not both), nothing is wired
@@ -126,10 +130,10 @@ WellFormed(loc, ports) ==
      /\ \A g \in GlobNodes(loc, ports) :
           \A x \in V : IsPrefixOf(g, x.node) =>
              \E i \in DOMAIN ports :
-                /\ PortNames[i] = x.port /\ ports[i].kd.k = "glob"
+                /\ PortNames[i] = x.port /\ ports[i].kd.k \in {"glob", "glob2"}
                 /\ Norm(loc \o ports[i].tp.p) = g
      /\ \A i, j \in DOMAIN ports :
-          (i # j /\ ports[i].kd.k = "glob" /\ ports[j].kd.k = "glob") =>
+          (i # j /\ ports[i].kd.k \in {"glob", "glob2"} /\ ports[j].kd.k \in {"glob", "glob2"}) =>
              Norm(loc \o ports[i].tp.p) # Norm(loc \o ports[j].tp.p)
 
 PortSeqs == UNION {[1..n -> PortSpecs] : n \in 1..MaxPorts}
